@@ -2,7 +2,7 @@
    proofs in Proofs/LieExp.v.  [eps] is the dtype's machine epsilon (any 0 <= eps <= 2^-10). *)
 From Coq Require Import Reals List Lra.
 From Coquelicot Require Import Coquelicot.
-From PV Require Import Base.Num Model.LieGroup Model.LieExp Proofs.LieGroup Proofs.LieExp Proofs.ExpODE Proofs.ExpODE2.
+From PV Require Import Base.Num Model.LieGroup Model.LieExp Proofs.LieGroup Proofs.LieExp Proofs.ExpODE Proofs.ExpODE2 Proofs.ExpODE3.
 Local Open Scope R_scope.
 #[local] Remove Hints NumQ NumZ : typeclass_instances.
 
@@ -50,6 +50,36 @@ Proof.
   apply se3_exponential; [pose proof (vnorm_nonneg phi); lra | split; reflexivity].
 Qed.
 
+(* rxso3: generator [phi]x + sigma I.  is_mexp_rxso3 phi sigma E := exists Y, Y 0 = I /\ Y' = ([phi]x + sigma I) Y /\ Y 1 = E.
+   Existence and uniqueness, for every sigma: the only such E is exp(sigma) Rodrigues(phi) ... *)
+Theorem C01_rxso3_exponential_unique : forall (phi : vec3R) (sg : R) (E : @mat3 R), vnorm phi <> 0 ->
+  (is_mexp_rxso3 phi sg E <-> E = mscale3 (exp sg) (rodrigues phi)).
+Proof. exact rxso3_exponential. Qed.
+(* ... which is the matrix the library builds from the modelled rxso3 Exp (closed-form rotation branch) *)
+Theorem C01_rxso3_exp_is_matrix_exponential : forall (eps : R) (phi : vec3R) (sg : R) (E : @mat3 R), 0 <= eps -> eps < vnorm phi ->
+  (is_mexp_rxso3 phi sg E <-> E = RxSO3_matrix (rxso3_exp eps (phi, sg))).
+Proof.
+  intros eps phi sg E He H. rewrite (rxso3_exp_matrix eps phi sg He H). apply rxso3_exponential.
+  pose proof (vnorm_nonneg phi). lra.
+Qed.
+
+(* sim3: generator [[ [phi]x + sigma I, tau],[0,0]]; block form E' = G E, E(0) = I, p' = G p + tau, p(0) = 0.
+   Existence and uniqueness (theta <> 0, sigma <> 0): the only such pair is (exp(sigma) Rodrigues(phi), Ws1 phi sigma tau),
+   Ws1 = A K + B K^2 + C I with the closed-form coefficients of rxso3_Ws ... *)
+Theorem C01_sim3_exponential_unique : forall (tau phi : vec3R) (sg : R) (E : @mat3 R) (p : vec3R), vnorm phi <> 0 -> sg <> 0 ->
+  (is_mexp_sim3 tau phi sg E p <-> E = mscale3 (exp sg) (rodrigues phi) /\ p = mvmul (Ws1 phi sg) tau).
+Proof. exact sim3_exponential. Qed.
+(* ... and on the closed-form branch (theta > eps, |sigma| > eps) that is exactly the 4x4 matrix of the modelled sim3 Exp *)
+Theorem C01_sim3_exp_is_matrix_exponential : forall (eps : R) (tau phi : vec3R) (sg : R), 0 <= eps -> eps < vnorm phi -> eps < Rabs sg ->
+  matrix4 Sim3_act4 (sim3_exp eps (tau, (phi, sg))) = block4 (mscale3 (exp sg) (rodrigues phi)) (mvmul (Ws1 phi sg) tau) /\
+  is_mexp_sim3 tau phi sg (mscale3 (exp sg) (rodrigues phi)) (mvmul (Ws1 phi sg) tau).
+Proof.
+  intros eps tau phi sg He H Hs. split; [now apply sim3_exp_matrix|].
+  apply sim3_exponential; [pose proof (vnorm_nonneg phi); lra | intros ->; rewrite Rabs_R0 in Hs; lra | split; reflexivity].
+Qed.
+
+Print Assumptions C01_rxso3_exponential_unique. Print Assumptions C01_rxso3_exp_is_matrix_exponential.
+Print Assumptions C01_sim3_exponential_unique. Print Assumptions C01_sim3_exp_is_matrix_exponential.
 Print Assumptions C01_se3_exponential_unique. Print Assumptions C01_se3_exp_is_matrix_exponential.
 Print Assumptions C01_so3_exp_unit_closed_form. Print Assumptions C01_so3_exp_unit_taylor.
 Print Assumptions C01_so3_matrix_is_rodrigues. Print Assumptions C01_rodrigues_is_the_matrix_exponential. Print Assumptions C01_so3_exp_is_matrix_exponential.
